@@ -124,6 +124,10 @@ func (a *APIClient) fetchMavenParents(ctx context.Context, current maven.Project
 		if err := proj.MergeProfiles("", maven.ActivationOS{}); err != nil {
 			return err
 		}
+		if n == 0 && current == project.ProjectKey {
+			// The project itself (an imported BOM): project.parent.* refer to its parent.
+			project.Parent = proj.Parent
+		}
 		project.MergeParent(proj)
 		current = proj.Parent.ProjectKey
 	}
